@@ -426,16 +426,24 @@ def family_try_new(p):
     return p["kind"] == "family" and p["ctor"].startswith("try_")
 
 
-KNOWN_CLASSES = [("variant-name-collision", mangled_collision), ("flattened-field-collision", field_collision),
-                 ("param-named-actor", actor_param), ("where-on-private-generic", where_on_private),
-                 ("family-try-new", family_try_new), ("nested-wildcard-pattern", nested_wild)]
+# classes that are still open findings (a failing program inside one of them is excused while the class is listed as `finding:` in
+# known_findings.txt -- props/C06.py sets ACTIVE_CLASSES from that file; a class that is no longer listed excuses nothing)
+KNOWN_CLASSES = [("flattened-field-collision", field_collision), ("param-named-actor", actor_param)]
+# classes repaired by fix: commits -- ordinary regression inputs now (predicates kept to describe the corpus)
+REPAIRED_CLASSES = [("variant-name-collision", mangled_collision), ("where-on-private-generic", where_on_private),
+                    ("family-try-new", family_try_new), ("nested-wildcard-pattern", nested_wild)]
+ACTIVE_CLASSES = None      # None = every class of KNOWN_CLASSES
 
 
 def known_class(p):
     for name, pred in KNOWN_CLASSES:
-        if pred(p):
+        if (ACTIVE_CLASSES is None or name in ACTIVE_CLASSES) and pred(p):
             return name
     return None
+
+
+def repaired_classes(p):
+    return [name for name, pred in REPAIRED_CLASSES if pred(p)]
 
 
 def gen_mostly_clean(rng, keep_known=0.08, **kw):
